@@ -651,6 +651,25 @@ func (c *Client) Request(ctx context.Context, payload kmip.OperationPayload) (km
 	return bi.ResponsePayload, nil
 }
 
+// checkResponseItem verifies that a batch item of a response answers the request it is paired with:
+// it must not name another operation, and a successful item must carry the response payload of the
+// requested operation.
+func checkResponseItem(req kmip.OperationPayload, bi *kmip.ResponseBatchItem) error {
+	if bi.Operation != 0 && bi.Operation != req.Operation() {
+		return fmt.Errorf("Unexpected operation %q in response to %q", ttlv.EnumStr(bi.Operation), ttlv.EnumStr(req.Operation()))
+	}
+	if bi.ResultStatus != kmip.ResultStatusSuccess {
+		return nil
+	}
+	if bi.ResponsePayload == nil {
+		return fmt.Errorf("Missing payload in response to %q", ttlv.EnumStr(req.Operation()))
+	}
+	if _, unknown := bi.ResponsePayload.(*kmip.UnknownPayload); unknown || bi.ResponsePayload.Operation() != req.Operation() {
+		return fmt.Errorf("Unexpected payload in response to %q", ttlv.EnumStr(req.Operation()))
+	}
+	return nil
+}
+
 // Batch sends one or more KMIP operation payloads to the server as a batch request.
 // It returns a BatchResult containing the results of each operation, or an error if the request fails.
 // This method is a convenience wrapper around BatchOpt.
@@ -693,6 +712,11 @@ func (c *Client) BatchOpt(ctx context.Context, payloads []kmip.OperationPayload,
 	// Check batch item count
 	if int(resp.Header.BatchCount) != len(resp.BatchItem) || len(resp.BatchItem) != len(payloads) {
 		return nil, errors.New("Batch count mismatch")
+	}
+	for i := range resp.BatchItem {
+		if err := checkResponseItem(payloads[i], &resp.BatchItem[i]); err != nil {
+			return nil, err
+		}
 	}
 	return resp.BatchItem, nil
 }
@@ -743,7 +767,12 @@ func (ex Executor[Req, Resp]) ExecContext(ctx context.Context) (Resp, error) {
 		var zero Resp
 		return zero, err
 	}
-	return resp.(Resp), nil
+	typed, ok := resp.(Resp)
+	if !ok {
+		var zero Resp
+		return zero, fmt.Errorf("Unexpected response payload type %T", resp)
+	}
+	return typed, nil
 }
 
 // MustExec is like Exec except it panics if the request fails.
